@@ -27,6 +27,7 @@ META = {
         "C05.2": "CFG reachability and dominance", "C05.3": "who-may-call on getattr with provenance of the receiver",
         "C05.4": "provenance terms of the message argument", "C05.5": "lexical enclosure of the call by the -32602 try",
         "C05.6": "abstract evaluation (shape interpreter) of validate_request over request shapes",
+        "C05.7": "handler scan + frame of the invocation (helper inlining)",
     },
     "assumptions": ["xmlrpc.server.resolve_dotted_attribute raises AttributeError for any segment starting with '_' "
                     "(audited from the installed stdlib source in the thorough tier)"],
@@ -216,23 +217,18 @@ def check(ck):
     gd = cfg_of(fd)
     domd = dominators(gd)
     # the looked-up callable(s): locals assigned from self.funcs[...] / resolve_dotted_attribute(...)
-    func_calls = []
-    for n in gd.live_nodes():
-        for c in node_calls(n):
-            if isinstance(c.func, ast.Name):
-                t = prov.origin(gd, n, c.func)
-                if any(a[0] == "item" and q.self_attr(a[1], "funcs") or
-                       (a[0] == "call" and a[1] == ("global", "resolve_dotted_attribute")) for a in prov.alts(t)):
-                    func_calls.append((n, c, t))
+    from rules import common as _common
+    invs = _common.callable_invocations(prog)
+    func_calls = [(n, c, None) for (n, c, helper, hc) in invs]
     if len(func_calls) < 2:
         raise AnalysisError("anchor vanished: calls of the looked-up callable in _dispatch (found %d)" % len(func_calls))
     for (n, c, t) in func_calls:
         okk = False
         for d in domd[n.id]:
             b = gd.nodes[d]
-            if b.kind == "branch" and b.polarity is True and dump(b.test) == "%s is not None" % dump(c.func):
+            if b.kind == "branch" and b.polarity is True and dump(b.test).endswith(" is not None") and dump(b.test)[:-12] in dump(c):
                 okk = True
-            if b.kind == "branch" and b.polarity is False and dump(b.test) == "%s is None" % dump(c.func):
+            if b.kind == "branch" and b.polarity is False and dump(b.test).endswith(" is None") and dump(b.test)[:-8] in dump(c):
                 okk = True
         ck.require(okk, "C05.2", "%s: call `%s`" % (q.fn(fd), dump(c)), "call dominated by `func is not None`",
                    "the looked-up value is called on a path where no callable was found", q.loc(fd, n))
@@ -300,6 +296,23 @@ def check(ck):
                        "the try whose TypeError handler answers -32602 encloses the execution of the method itself: a "
                        "TypeError raised inside the method (e.g. 1 + 'a') is reported as invalid parameters instead of -32603",
                        q.loc(fd, h))
+
+    # ---- C05.7 an argument mismatch is always answered -32602 ---------------------------------------------------
+    for site in all_sites:
+        if site.code() != spec.CODE_PARAMS or site.fi.fq != fd.fq:
+            continue
+        for (t, h) in handler_of(fd, site.call)[:1]:
+            reraise = [x for st_ in h.body for x in ast.walk(st_) if isinstance(x, ast.Raise)]
+            via_helper = [hc for (n, c, helper, hc) in invs if helper is not None]
+            if reraise:
+                ck.require(not via_helper, "C05.7", "%s: -32602 handler re-raises selectively while the call sits in a helper" % q.fn(fd),
+                           "the call expression is in _dispatch's own frame",
+                           "the TypeError handler re-raises depending on the traceback, and the registered callable is invoked one frame deeper "
+                           "(through %s): a genuine argument mismatch is raised inside that helper, classified as an error of the method and "
+                           "answered -32603 instead of -32602" % ", ".join(sorted(set(helper.qual for (_n, _c, helper, _h) in invs if helper is not None))),
+                           q.loc(fd, h))
+            else:
+                ck.ok("C05.7", "%s: the -32602 handler answers every TypeError of the call" % q.fn(fd), "no selective re-raise", q.loc(fd, h))
 
     # ---- C05.6 validate_request truth table ---------------------------------------------------
     fv = prog.func(SRV, "validate_request")
